@@ -748,8 +748,15 @@ func c02Reject(c *Ctx) {
 				return false
 			}) && emptyLabelBoth(rej["parseDNSSL"])
 		}},
-		{"dnssl-duplicate", "parseDNSSL", "domain names unique", func(r rejection) bool {
-			return lastIs(r, func(a an.PathAtom) bool { return a.Pos && filterKind(a) == "Seen" })
+		{"dnssl-duplicate", "parseDNSSL", "domain names unique (compared in the form they have on the wire)", func(r rejection) bool {
+			return lastIs(r, func(a an.PathAtom) bool {
+				if !a.Pos || filterKind(a) != "Seen" {
+					return false
+				}
+				// the set is keyed by the normalised name: two spellings of one name are one name
+				key := a.Cond.Args[0].Args[1]
+				return isWireFormName(key)
+			})
 		}},
 		{"pref64-bad-prefix", "parsePlugins", "pref64 prefix is a canonical IPv6 CIDR", func(r rejection) bool {
 			return lastIs(r, func(a an.PathAtom) bool {
